@@ -270,6 +270,39 @@ class NpProxy(object):
             return emap(lambda u, v: ite(lift(u) >= lift(v), u, v), a, b)
         return np.maximum(a, b, **kw)
 
+    def _fold(self, a, axis, keepdims, pick):
+        """max / min of symbolic entries as an If-chain (no path split): python's own comparisons would fork 2^n paths"""
+        arr = asobj(a)
+        if axis is None:
+            flat = list(arr.ravel())
+            r = flat[0]
+            for v in flat[1:]:
+                r = pick(r, v)
+            return r if not keepdims else wrap(np.array(r, dtype=object).reshape((1,) * arr.ndim))
+        moved = np.moveaxis(arr, axis, 0)
+        out = np.empty(moved.shape[1:], dtype=object)
+        for idx in np.ndindex(moved.shape[1:]):
+            r = moved[(0,) + idx]
+            for k in range(1, moved.shape[0]):
+                r = pick(r, moved[(k,) + idx])
+            out[idx] = r
+        res = wrap(out) if out.shape else out[()]
+        return wrap(np.expand_dims(asobj(res), axis)) if keepdims else res
+
+    @_ov
+    def max(self, a, axis=None, out=None, keepdims=False, **kw):
+        if is_sym(a):
+            return self._fold(a, axis, keepdims, lambda u, v: ite(lift(v) > lift(u), v, u))
+        return np.max(a, axis=axis, keepdims=keepdims, **kw)
+    amax = max
+
+    @_ov
+    def min(self, a, axis=None, out=None, keepdims=False, **kw):
+        if is_sym(a):
+            return self._fold(a, axis, keepdims, lambda u, v: ite(lift(v) < lift(u), v, u))
+        return np.min(a, axis=axis, keepdims=keepdims, **kw)
+    amin = min
+
     @_ov
     def minimum(self, a, b, **kw):
         if is_sym(a) or is_sym(b):
@@ -631,14 +664,19 @@ class SpecialProxy(object):
         return self._m.factorial(arr, **kw)
 
 
-def sym_convolve1d(inp, w, axis=0, origin=0, real_impl=None, **kw):
+def sym_convolve1d(inp, w, axis=-1, origin=0, real_impl=None, **kw):
     """assumed contract of scipy.ndimage.convolve1d (mode='reflect') as an explicit index formula, generic over
-    the element type; conformance-tested against scipy on random data on every run."""
+    the element type; conformance-tested against scipy on random data on every run.  Default axis -1, as in scipy."""
     if not (is_sym(inp) or is_sym(w)):
         return real_impl(inp, w, axis=axis, origin=origin, **kw)
-    if kw.get('mode', 'reflect') != 'reflect' or axis != 0:
-        raise NeedsConcrete('convolve1d contract covers axis=0, mode=reflect only')
+    if kw.get('mode', 'reflect') != 'reflect':
+        raise NeedsConcrete('convolve1d contract covers mode=reflect only')
     inp = asobj(inp)
+    if axis not in (0, -inp.ndim):
+        # any other axis: the same formula along that axis
+        moved = np.moveaxis(inp, axis, 0)
+        res = sym_convolve1d(moved.view(SymArr), w, axis=0, origin=origin, real_impl=real_impl, **kw)
+        return np.moveaxis(asobj(res), 0, axis).view(SymArr)
     w = list(asobj(w).ravel())
     n = inp.shape[0]
     L = len(w)
@@ -664,14 +702,18 @@ def sym_convolve1d(inp, w, axis=0, origin=0, real_impl=None, **kw):
     return out.view(SymArr)
 
 
-def sym_correlate1d(inp, w, axis=0, origin=0, real_impl=None, **kw):
+def sym_correlate1d(inp, w, axis=-1, origin=0, real_impl=None, **kw):
     """assumed contract of scipy.ndimage.correlate1d (mode='reflect'): out[i] = sum_j conj(w[j]) * in[i+j-L//2-origin]
-    (scipy conjugates complex weights in correlate); conformance-tested against scipy."""
+    (scipy conjugates complex weights in correlate); conformance-tested against scipy.  Default axis -1, as in scipy."""
     if not (is_sym(inp) or is_sym(w)):
         return real_impl(inp, w, axis=axis, origin=origin, **kw)
-    if kw.get('mode', 'reflect') != 'reflect' or axis != 0:
-        raise NeedsConcrete('correlate1d contract covers axis=0, mode=reflect only')
+    if kw.get('mode', 'reflect') != 'reflect':
+        raise NeedsConcrete('correlate1d contract covers mode=reflect only')
     inp = asobj(inp)
+    if axis not in (0, -inp.ndim):
+        moved = np.moveaxis(inp, axis, 0)
+        res = sym_correlate1d(moved.view(SymArr), w, axis=0, origin=origin, real_impl=real_impl, **kw)
+        return np.moveaxis(asobj(res), 0, axis).view(SymArr)
     w = [lift(v).conjugate() if isinstance(lift(v), C) else v for v in asobj(w).ravel()]
     n = inp.shape[0]
     L = len(w)
